@@ -12,6 +12,8 @@ pub struct Case {
     pub site: Site,
     pub date: String,
     pub p: PSpec,
+    #[serde(default)]
+    pub weather: Option<(X, X)>,
 }
 
 const EXEMPT: f64 = 0.05;
@@ -20,7 +22,7 @@ pub fn check(_ctx: &Ctx, st: &mut Stats, c: &Case) {
     let p = c.p.build();
     let date = s2d(&c.date);
     let lat = c.site.lat.0;
-    let res = match call(st, &p, c.site.loc(), date, None) {
+    let res = match call(st, &p, c.site.loc(), date, c.weather.map(|(a, b)| weather(a.0, b.0))) {
         Ok(r) => r,
         Err(_) => {
             st.count("panicked_cannot_decide(see C07)");
@@ -117,6 +119,12 @@ fn gen_case(r: &mut Rng) -> Case {
         site: Site::new(la, lon, gen::any_elev(r), gen::gmt_near(r, lon, 3.0)),
         date: d2s(if r.chance(0.3) { hostile_date(r) } else { rand_date(r) }),
         p,
+        weather: if r.chance(0.4) {
+            let w = gen::any_weather(r);
+            Some((X(f64::from(w.pressure)), X(f64::from(w.temperature))))
+        } else {
+            None
+        },
     }
 }
 
